@@ -180,6 +180,9 @@ func (g G) tamper(label string, m *MsgSpec) {
 		switch m.Binding {
 		case "post", "soap":
 			ops = append(common, "strip_sig", "drop_keyinfo", "foreign_keyinfo", "sigvalue_flip", "digest_flip", "empty_sigvalue", "post_deflate", "wrap", "sigvalue_flip")
+			if m.Binding == "post" {
+				ops = append(ops, "query_shadow", "query_shadow")
+			}
 			if m.Binding == "soap" {
 				ops = append(ops, "soap_header_wrap", "soap_header_wrap")
 			}
@@ -238,6 +241,8 @@ func (g G) tamper(label string, m *MsgSpec) {
 			m.Tamper = append(m.Tamper, Tamper{Op: "empty_sigvalue"})
 		case "post_deflate":
 			m.Tamper = append(m.Tamper, Tamper{Op: "post_deflate"})
+		case "query_shadow":
+			m.Tamper = append(m.Tamper, Tamper{Op: "query_shadow", A: g.intn(lab+".qa", 4), B: g.intn(lab+".qb", 2)})
 		case "strip_sigparams":
 			m.Tamper = append(m.Tamper, Tamper{Op: "strip_sigparams"})
 		case "sig_flip":
